@@ -393,3 +393,703 @@ Proof.
   destruct (set_and_acl_spec t p (payload enc d) (realacl true (aclf p)) n H) as [t' [E1 [_ E3]]].
   exists t'. split; [exact E1|]. intros q. rewrite E3. destruct (path_eqb p q); reflexivity.
 Qed.
+
+(* ================================================================== second part: missing nodes, wf, refinement *)
+
+Lemma has_true N q : has N q = true <-> exists n, find N q = Some n.
+Proof. unfold has. destruct (find N q); split; intros H; eauto; try discriminate. destruct H; discriminate. Qed.
+Lemma has_false N q : has N q = false <-> find N q = None.
+Proof. unfold has. destruct (find N q); split; intros H; congruence. Qed.
+
+Lemma zl_eqb_refl a : zl_eqb a a = true.
+Proof. apply zl_eqb_eq. reflexivity. Qed.
+
+Lemma prefixb_app p : forall q, prefixb p q = true -> exists r, q = p ++ r.
+Proof.
+  induction p as [|x p IH]; intros q H.
+  - exists q. reflexivity.
+  - destruct q as [|y q]; [discriminate|]. cbn in H. apply andb_true_iff in H as [H1 H2].
+    apply zl_eqb_eq in H1. subst y. destruct (IH _ H2) as [r Hr]. exists r. cbn. congruence.
+Qed.
+
+Lemma prefixb_app_refl p r : prefixb p (p ++ r) = true.
+Proof. induction p as [|x p IH]; cbn; [reflexivity|]. rewrite zl_eqb_refl, IH. reflexivity. Qed.
+
+Lemma prefixb_refl p : prefixb p p = true.
+Proof. rewrite <- (app_nil_r p) at 2. apply prefixb_app_refl. Qed.
+
+Lemma prefixb_length p q : prefixb p q = true -> (length p <= length q)%nat.
+Proof. intros H. destruct (prefixb_app _ _ H) as [r Hr]. subst q. rewrite app_length. lia. Qed.
+
+Lemma prefixb_app_l p c q : prefixb (p ++ c) q = true -> prefixb p q = true.
+Proof. intros H. destruct (prefixb_app _ _ H) as [r Hr]. subst q. rewrite <- app_assoc. apply prefixb_app_refl. Qed.
+
+Lemma prefixb_removelast p q : prefixb p (removelast q) = true -> prefixb p q = true.
+Proof.
+  intros H. destruct q as [|s q]; [exact H|].
+  rewrite (app_removelast_last (A:=seg) [] (l:=s :: q)) by discriminate.
+  destruct (prefixb_app _ _ H) as [r Hr]. rewrite Hr, <- app_assoc. apply prefixb_app_refl.
+Qed.
+
+Lemma length_removelast (p : path) : p <> [] -> length p = S (length (removelast p)).
+Proof.
+  intros H. rewrite (app_removelast_last (A:=seg) [] H) at 1. rewrite app_length. cbn. lia.
+Qed.
+
+Lemma In_prefixes_from p : forall acc q, In q (prefixes_from acc p) ->
+  exists r1 r2, p = r1 ++ r2 /\ q = acc ++ r1 /\ r1 <> [].
+Proof.
+  induction p as [|s p IH]; intros acc q H; cbn in H; [tauto|]. destruct H as [H|H].
+  - exists [s], p. repeat split; [congruence | discriminate].
+  - destruct (IH _ _ H) as [r1 [r2 [A [B C]]]]. exists (s :: r1), r2. subst. rewrite <- app_assoc.
+    repeat split; discriminate.
+Qed.
+
+(** [is_anc q p]: q is a proper ancestor of p other than "/" *)
+Definition is_anc (q p : path) : bool := existsb (path_eqb q) (prefixes (removelast p)).
+
+Lemma existsb_prefixes q pa : existsb (path_eqb q) (prefixes pa) = true -> exists r, pa = q ++ r.
+Proof.
+  intros H. apply existsb_exists in H as [x [Hx E]]. apply path_eqb_eq in E. subst x.
+  destruct (In_prefixes_from _ _ _ Hx) as [r1 [r2 [A [B _]]]]. cbn in B. subst. eauto.
+Qed.
+
+Lemma is_anc_prefix q p : is_anc q p = true -> exists r, removelast p = q ++ r.
+Proof. apply existsb_prefixes. Qed.
+
+Lemma is_anc_self p : is_anc p p = false.
+Proof.
+  destruct (is_anc p p) eqn:E; [|reflexivity]. destruct (is_anc_prefix _ _ E) as [r Hr].
+  destruct p as [|s p]; [discriminate E|]. pose proof (length_removelast (s :: p)) as L.
+  rewrite Hr, app_length in L. specialize (L ltac:(discriminate)). lia.
+Qed.
+
+Lemma is_anc_prefixb q p : is_anc q p = true -> prefixb q p = true.
+Proof.
+  intros H. destruct (is_anc_prefix _ _ H) as [r Hr]. apply prefixb_removelast. rewrite Hr. apply prefixb_app_refl.
+Qed.
+
+Lemma wf_anc_present N p q : wf N -> has N (removelast p) = true -> is_anc q p = true -> has N q = true.
+Proof.
+  intros W H A. destruct (is_anc_prefix _ _ A) as [r Hr]. rewrite Hr in H. exact (wf_prefix N W r q H).
+Qed.
+
+Lemma srv_create_nodeexists t p v acl eph t' : srv_create t p v acl eph false = (RExn ENodeExists, t') ->
+  has (nodes t) p = true.
+Proof.
+  unfold srv_create. destruct (find (nodes t) (removelast p)) as [pn|]; [|discriminate].
+  destruct (has (nodes t) p) eqn:E; [reflexivity|]. destruct (n_eph pn); discriminate.
+Qed.
+
+Lemma srv_create_nonode t p v acl eph sequ t' : srv_create t p v acl eph sequ = (RExn ENoNode, t') ->
+  has (nodes t) (removelast p) = false.
+Proof.
+  unfold srv_create, has. destruct (find (nodes t) (removelast p)) as [pn|]; [|reflexivity].
+  destruct (match find (nodes t) _ with Some _ => true | None => false end); [discriminate|].
+  destruct (n_eph pn); discriminate.
+Qed.
+
+(** ensure_path, when it succeeds: exactly the missing ones of the listed paths are new, empty and persistent *)
+Lemma ens_path_spec acl : forall qs t t', ens_path qs acl t = (None, t') ->
+  forall q, find (nodes t') q =
+            if existsb (path_eqb q) qs && negb (has (nodes t) q) then Some (mknode [] false acl)
+            else find (nodes t) q.
+Proof.
+  induction qs as [|q0 r IH]; intros t t' H q.
+  - cbn in H. inversion H; subst. reflexivity.
+  - cbn [ens_path] in H. cbn [existsb].
+    destruct (has (nodes t) q0) eqn:Hq0.
+    + rewrite (IH _ _ H q). destruct (path_eqb q q0) eqn:E; [|reflexivity].
+      apply path_eqb_eq in E. subst q0. rewrite Hq0. cbn. rewrite andb_false_r. reflexivity.
+    + destruct (srv_create_shape t q0 [] acl false false) as [[e Ce]|[p' [t1 Ce]]]; rewrite Ce in H.
+      * destruct e; try discriminate H. apply srv_create_nodeexists in Ce. congruence.
+      * destruct (srv_create_ok _ _ _ _ _ _ _ Ce) as [_ [_ [_ F]]].
+        rewrite (IH _ _ H q). unfold has at 1. rewrite !F. rewrite (path_eqb_sym q0 q).
+        destruct (path_eqb q q0) eqn:E.
+        -- apply path_eqb_eq in E. subst q0. rewrite Hq0. cbn. rewrite andb_false_r. reflexivity.
+        -- cbn [orb]. reflexivity.
+Qed.
+
+Lemma ens_path_not_nodeexists acl : forall l t t1, ens_path l acl t <> (Some ENodeExists, t1).
+Proof.
+  induction l as [|q0 r IH]; intros t t1 EP.
+  - discriminate EP.
+  - cbn [ens_path] in EP. destruct (has (nodes t) q0); [exact (IH _ _ EP)|].
+    destruct (srv_create_shape t q0 [] acl false false) as [[e Ce]|[p' [t3 Ce]]]; rewrite Ce in EP.
+    + destruct e; try discriminate EP. exact (IH _ _ EP).
+    + exact (IH _ _ EP).
+Qed.
+
+Lemma k_create_nodeexists t p v acl eph mk t1 : k_create t p v acl eph false mk = (RExn ENodeExists, t1) ->
+  has (nodes t) p = true.
+Proof.
+  unfold k_create.
+  destruct (srv_create_shape t p v acl eph false) as [[e Ce]|[p' [t2 Ce]]]; rewrite Ce; [|discriminate].
+  destruct e; try discriminate.
+  - destruct mk; [|discriminate].
+    destruct (ens_path (prefixes (removelast p)) (acl) t) as [[e|] t2] eqn:EP.
+    + intros H. inversion H; subst. exfalso. exact (ens_path_not_nodeexists _ _ _ _ EP).
+    + intros H. apply srv_create_nodeexists in H. unfold has in H |- *.
+      rewrite (ens_path_spec _ _ _ _ EP p) in H. fold (is_anc p p) in H. rewrite is_anc_self in H. exact H.
+  - intros H. apply srv_create_nodeexists in Ce. exact Ce.
+Qed.
+
+(** create(makepath=True) of a missing node, when it returns: exactly the node and its missing ancestors are new *)
+Lemma k_create_spec t p v acl eph p' t' : wf (nodes t) -> k_create t p v acl eph false true = (RPath p', t') ->
+  p' = p /\ has (nodes t) p = false /\
+  forall q, find (nodes t') q =
+            if path_eqb p q then Some (mknode v eph acl)
+            else if is_anc q p && negb (has (nodes t) q) then Some (mknode [] false acl)
+            else find (nodes t) q.
+Proof.
+  intros W. unfold k_create.
+  destruct (srv_create_shape t p v acl eph false) as [[e Ce]|[p2 [t2 Ce]]]; rewrite Ce.
+  - destruct e; try discriminate.
+    destruct (ens_path (prefixes (removelast p)) acl t) as [[e|] t1] eqn:EP; [discriminate|].
+    intros H. destruct (srv_create_ok _ _ _ _ _ _ _ H) as [A [B [_ F]]]. split; [exact A|].
+    pose proof (ens_path_spec _ _ _ _ EP) as S. split.
+    + apply has_false. apply has_false in B. rewrite S in B. fold (is_anc p p) in B. rewrite is_anc_self in B. exact B.
+    + intros q. rewrite F. destruct (path_eqb p q); [reflexivity|]. apply S.
+  - intros H. inversion H; subst p2 t2. destruct (srv_create_ok _ _ _ _ _ _ _ Ce) as [A [B [Hp F]]].
+    split; [exact A|]. split; [exact B|]. intros q. rewrite F. destruct (path_eqb p q); [reflexivity|].
+    destruct (is_anc q p) eqn:An; [|reflexivity]. rewrite (wf_anc_present _ _ _ W Hp An). reflexivity.
+Qed.
+
+(* ------------------------------------------------------------------ wf is preserved *)
+Lemma wf_upsert N p n : wf N -> has N (removelast p) = true -> wf (upsert p n N).
+Proof.
+  intros W H q Hq. rewrite has_upsert in Hq |- *. destruct (path_eqb p q) eqn:E.
+  - apply path_eqb_eq in E. subst q. rewrite H. apply orb_true_r.
+  - cbn in Hq. rewrite (W _ Hq). apply orb_true_r.
+Qed.
+
+Lemma wf_same_has N N' : (forall q, has N' q = has N q) -> wf N -> wf N'.
+Proof. intros E W q Hq. rewrite E in Hq |- *. exact (W _ Hq). Qed.
+
+Lemma has_upsert_present N p n q : has N p = true -> has (upsert p n N) q = has N q.
+Proof.
+  intros H. rewrite has_upsert. destruct (path_eqb p q) eqn:E; [|reflexivity].
+  apply path_eqb_eq in E. subst q. rewrite H. reflexivity.
+Qed.
+
+Lemma srv_create_wf t p v acl eph sequ : wf (nodes t) -> wf (nodes (snd (srv_create t p v acl eph sequ))).
+Proof.
+  intros W. unfold srv_create. destruct (find (nodes t) (removelast p)) as [pn|] eqn:E; [|exact W].
+  destruct (has (nodes t) _); [exact W|]. destruct (n_eph pn); [exact W|]. cbn [snd nodes].
+  apply wf_upsert; [exact W|]. assert (Hp : has (nodes t) (removelast p) = true) by (apply has_true; eauto).
+  destruct sequ; [|exact Hp]. unfold seq_name. rewrite removelast_last. exact Hp.
+Qed.
+
+Lemma ens_path_wf acl : forall l t, wf (nodes t) -> wf (nodes (snd (ens_path l acl t))).
+Proof.
+  induction l as [|q0 r IH]; intros t W; cbn [ens_path]; [exact W|].
+  destruct (has (nodes t) q0); [exact (IH _ W)|].
+  pose proof (srv_create_wf t q0 [] acl false false W) as W1.
+  destruct (srv_create t q0 [] acl false false) as [r0 t1]. cbn [snd] in W1.
+  destruct r0; try exact (IH _ W1). destruct e; try exact W1. exact (IH _ W1).
+Qed.
+
+Lemma k_create_wf t p v acl eph sequ mk : wf (nodes t) -> wf (nodes (snd (k_create t p v acl eph sequ mk))).
+Proof.
+  intros W. unfold k_create. pose proof (srv_create_wf t p v acl eph sequ W) as W1.
+  destruct (srv_create t p v acl eph sequ) as [r0 t1]. cbn [snd] in W1.
+  destruct r0; try exact W1. destruct e; try exact W1. destruct mk; [|exact W].
+  pose proof (ens_path_wf acl (prefixes (removelast p)) t W) as W2.
+  destruct (ens_path (prefixes (removelast p)) acl t) as [[e|] t2]; cbn [snd] in W2; [exact W2|].
+  apply srv_create_wf. exact W2.
+Qed.
+
+Lemma srv_set_wf t p v : wf (nodes t) -> wf (nodes (snd (srv_set t p v))).
+Proof.
+  intros W. unfold srv_set. destruct (find (nodes t) p) eqn:E; [|exact W]. cbn [snd nodes].
+  apply (wf_same_has (nodes t)); [|exact W]. intros q. apply has_upsert_present. apply has_true. eauto.
+Qed.
+
+Lemma srv_set_acls_wf t p a : wf (nodes t) -> wf (nodes (snd (srv_set_acls t p a))).
+Proof.
+  intros W. unfold srv_set_acls. destruct (find (nodes t) p) eqn:E; [|exact W]. cbn [snd nodes].
+  apply (wf_same_has (nodes t)); [|exact W]. intros q. apply has_upsert_present. apply has_true. eauto.
+Qed.
+
+Lemma set_and_acl_wf t p pl ra : wf (nodes t) -> wf (nodes (snd (set_and_acl t p pl ra))).
+Proof.
+  intros W. unfold set_and_acl. pose proof (srv_set_wf t p pl W) as W2.
+  destruct (srv_set t p pl) as [r2 t2]. cbn [snd] in W2.
+  pose proof (srv_set_acls_wf t2 p (mk_default ra) W2) as W3. unfold c_set_acls.
+  destruct (srv_set_acls t2 p (mk_default ra)) as [r3 t3]. cbn [snd] in W3.
+  destruct r2; try exact W2; destruct r3; exact W3.
+Qed.
+
+Theorem put_preserves_wf enc t p d acl sequ dflt eph chk : wf (nodes t) ->
+  wf (nodes (snd (zu_put enc t p d acl sequ dflt eph chk))).
+Proof.
+  intros W. unfold zu_put, c_create.
+  pose proof (k_create_wf t p (payload enc d) (mk_default (realacl dflt acl)) eph sequ true W) as W1.
+  destruct (k_create t p (payload enc d) (mk_default (realacl dflt acl)) eph sequ true) as [r0 t1]. cbn [snd] in W1.
+  pose proof (set_and_acl_wf t1 p (payload enc d) (realacl dflt acl) W1) as W2.
+  destruct r0; try exact W1. destruct e; try exact W1. destruct chk; [|exact W2].
+  destruct (srv_get t1 p); try exact W2; try exact W1. destruct (zl_eqb d0 (payload enc d)); [exact W1 | exact W2].
+Qed.
+
+Theorem create_preserves_wf enc t p d acl sequ dflt eph : wf (nodes t) ->
+  wf (nodes (snd (zu_create enc t p d acl sequ dflt eph))).
+Proof. intros W. unfold zu_create, c_create. apply k_create_wf. exact W. Qed.
+
+Theorem update_preserves_wf enc t p d chk : wf (nodes t) -> wf (nodes (snd (zu_update enc t p d chk))).
+Proof.
+  intros W. unfold zu_update. pose proof (srv_set_wf t p (payload enc d) W) as W2.
+  destruct (srv_set t p (payload enc d)) as [r2 t2]. cbn [snd] in W2.
+  assert (X : wf (nodes (snd (match r2 with RExn e => (RExn e, t2) | _ => (RPath p, t2) end)))) by (destruct r2; exact W2).
+  destruct chk; [|destruct r2; exact W2].
+  destruct (srv_get t p); try (destruct r2; exact W2); try exact W.
+  destruct (zl_eqb d0 (payload enc d)); [exact W | destruct r2; exact W2].
+Qed.
+
+Theorem ensure_exists_preserves_wf enc t p acl sequ d : wf (nodes t) ->
+  wf (nodes (snd (zu_ensure_exists enc t p acl sequ d))).
+Proof.
+  intros W. unfold zu_ensure_exists, c_create.
+  pose proof (k_create_wf t p (payload enc d) (mk_default (Some (mk_default acl))) false sequ true W) as W1.
+  destruct (k_create t p (payload enc d) (mk_default (Some (mk_default acl))) false sequ true) as [r0 t1].
+  cbn [snd] in W1. destruct r0; try exact W1. destruct e; try exact W1.
+  assert (W2 : wf (nodes (snd (if is_none d then (RTrue, t1) else srv_set t1 p (payload enc d))))).
+  { destruct (is_none d); [exact W1 | apply srv_set_wf; exact W1]. }
+  destruct (if is_none d then (RTrue, t1) else srv_set t1 p (payload enc d)) as [r2 t2]. cbn [snd] in W2.
+  pose proof (srv_set_acls_wf t2 p (mk_default (Some (mk_default acl))) W2) as W3. unfold c_set_acls.
+  destruct (srv_set_acls t2 p (mk_default (Some (mk_default acl)))) as [r3 t3]. cbn [snd] in W3.
+  destruct r2; try exact W2; destruct r3; exact W3.
+Qed.
+
+(* ------------------------------------------------------------------ (c) create of a missing node *)
+Lemma anc_if_present N p q : wf N -> has N (removelast p) = true -> is_anc q p && negb (has N q) = false.
+Proof.
+  intros W H. destruct (is_anc q p) eqn:A; [|reflexivity]. rewrite (wf_anc_present _ _ _ W H A). reflexivity.
+Qed.
+
+Lemma k_create_shape t p v acl eph sequ mk :
+  (exists e t', k_create t p v acl eph sequ mk = (RExn e, t')) \/
+  (exists p' t', k_create t p v acl eph sequ mk = (RPath p', t')).
+Proof.
+  unfold k_create. destruct (srv_create_shape t p v acl eph sequ) as [[e Ce]|[p' [t1 Ce]]]; rewrite Ce.
+  - destruct e; try solve [left; eauto]. destruct mk; [|left; eauto].
+    destruct (ens_path (prefixes (removelast p)) acl t) as [[e|] t2]; [left; eauto|].
+    destruct (srv_create_shape t2 p v acl eph sequ) as [[e Ce2]|[p' [t3 Ce2]]]; rewrite Ce2; [left | right]; eauto.
+  - right. eauto.
+Qed.
+
+Definition created_spec (t t' : tree) (p : path) (v : list Z) (eph : bool) (A : list Z) : Prop :=
+  forall q, find (nodes t') q =
+            if path_eqb p q then Some (mknode v eph A)
+            else if is_anc q p && negb (has (nodes t) q) then Some (mknode [] false A)
+            else find (nodes t) q.
+
+Lemma created_spec_facts t t' p v eph A : has (nodes t) p = false -> created_spec t t' p v eph A ->
+  (forall q, has (nodes t) q = true -> find (nodes t') q = find (nodes t) q) /\
+  (forall q, is_anc q p = true -> has (nodes t') q = true) /\
+  (forall q, has (nodes t) q = false -> has (nodes t') q = true -> q = p \/ is_anc q p = true).
+Proof.
+  intros Hp S. split; [|split].
+  - intros q Hq. rewrite S. destruct (path_eqb p q) eqn:E.
+    + apply path_eqb_eq in E. congruence.
+    + rewrite Hq, andb_false_r. reflexivity.
+  - intros q Hq. unfold has. rewrite S. destruct (path_eqb p q); [reflexivity|]. rewrite Hq. cbn [andb].
+    destruct (has (nodes t) q) eqn:E; cbn [negb]; [|reflexivity]. exact E.
+  - intros q H0 H1. unfold has in H1. rewrite S in H1. destruct (path_eqb p q) eqn:E.
+    + left. apply path_eqb_eq in E. congruence.
+    + destruct (is_anc q p); [right; reflexivity|]. cbn [andb] in H1. unfold has in H0. rewrite H0 in H1. discriminate.
+Qed.
+
+Theorem create_missing_spec enc t p d acl dflt eph p' t' : wf (nodes t) ->
+  zu_create enc t p d acl false dflt eph = (RPath p', t') ->
+  p' = p /\ has (nodes t) p = false /\ wf (nodes t') /\
+  created_spec t t' p (payload enc d) eph (mk_default (realacl dflt acl)).
+Proof.
+  intros W H. pose proof (create_preserves_wf enc t p d acl false dflt eph W) as W'. rewrite H in W'.
+  unfold zu_create, c_create in H. destruct (k_create_spec _ _ _ _ _ _ _ W H) as [A [B C]].
+  split; [exact A|]. split; [exact B|]. split; [exact W' | exact C].
+Qed.
+
+(** kazoo's create without makepath: NoNodeError iff the parent is missing, and then nothing changes *)
+Theorem create_nomakepath_nonode t p v acl eph sequ :
+  (has (nodes t) (removelast p) = false -> k_create t p v acl eph sequ false = (RExn ENoNode, t)) /\
+  (forall t', k_create t p v acl eph sequ false = (RExn ENoNode, t') -> has (nodes t) (removelast p) = false /\ t' = t).
+Proof.
+  split.
+  - intros H. apply has_false in H. unfold k_create, srv_create. rewrite H. reflexivity.
+  - intros t'. unfold k_create.
+    destruct (srv_create_shape t p v acl eph sequ) as [[e Ce]|[p' [t1 Ce]]]; rewrite Ce; [|discriminate].
+    destruct e; intros H; inversion H; subst. split; [exact (srv_create_nonode _ _ _ _ _ _ _ Ce) | reflexivity].
+Qed.
+
+(* ------------------------------------------------------------------ (a) put, any wf tree *)
+Theorem put_then_get enc t p d acl dflt eph chk r t' : wf (nodes t) ->
+  zu_put enc t p d acl false dflt eph chk = (r, t') -> (forall e, r <> RExn e) ->
+  (r = RPath p \/ (r = RNone /\ chk = true /\ t' = t)) /\
+  (exists n', find (nodes t') p = Some n' /\ n_data n' = payload enc d /\
+              zu_get t' p = RData (payload enc d) (n_ver n') /\
+              (r = RPath p -> n_acl n' = mk_default (realacl dflt acl))) /\
+  (forall q, q <> p -> find (nodes t') q =
+                       if is_anc q p && negb (has (nodes t) q)
+                       then Some (mknode [] false (mk_default (realacl dflt acl))) else find (nodes t) q).
+Proof.
+  intros W H Hne. destruct (has (nodes t) p) eqn:Hp.
+  - destruct (proj1 (has_true _ _) Hp) as [n Hn]. rewrite (zu_put_existing enc t p d acl dflt eph chk n W Hn) in H.
+    assert (Anc : forall q, is_anc q p && negb (has (nodes t) q) = false) by (intros q; apply anc_if_present; auto).
+    destruct (chk && zl_eqb (n_data n) (payload enc d)) eqn:C.
+    + inversion H; subst r t'. apply andb_true_iff in C as [C1 C2]. apply zl_eqb_eq in C2.
+      split; [right; auto|]. split.
+      * exists n. repeat split; auto; [unfold zu_get, srv_get; rewrite Hn, C2; reflexivity | discriminate].
+      * intros q _. rewrite Anc. reflexivity.
+    + destruct (set_and_acl_spec t p (payload enc d) (realacl dflt acl) n Hn) as [t2 [E1 [_ E3]]].
+      rewrite E1 in H. inversion H; subst r t'. split; [left; reflexivity|]. split.
+      * eexists. split; [rewrite E3, path_eqb_refl; reflexivity|]. cbn. repeat split.
+        unfold zu_get, srv_get. rewrite E3, path_eqb_refl. reflexivity.
+      * intros q Hq. rewrite E3, path_eqb_neq, Anc by congruence. reflexivity.
+  - unfold zu_put, c_create in H.
+    destruct (k_create_shape t p (payload enc d) (mk_default (realacl dflt acl)) eph false true)
+      as [[e [t1 K]]|[p1 [t1 K]]]; rewrite K in H.
+    + destruct e; try (inversion H; subst; exfalso; eapply Hne; reflexivity).
+      apply k_create_nodeexists in K. congruence.
+    + inversion H; subst r t'. destruct (k_create_spec _ _ _ _ _ _ _ W K) as [A [_ S]]. subst p1.
+      split; [left; reflexivity|]. split.
+      * eexists. split; [rewrite S, path_eqb_refl; reflexivity|]. cbn. repeat split.
+        unfold zu_get, srv_get. rewrite S, path_eqb_refl. reflexivity.
+      * intros q Hq. rewrite S, path_eqb_neq by congruence. reflexivity.
+Qed.
+
+(** put twice: with check_content the second call writes nothing (None); without, it writes the same bytes again -
+    only the version moves, by one *)
+Theorem put_idempotent enc t p d acl dflt eph chk1 t1 : wf (nodes t) ->
+  zu_put enc t p d acl false dflt eph chk1 = (RPath p, t1) ->
+  zu_put enc t1 p d acl false dflt eph true = (RNone, t1) /\
+  exists n1 t2, find (nodes t1) p = Some n1 /\
+    zu_put enc t1 p d acl false dflt eph false = (RPath p, t2) /\ cvs t2 = cvs t1 /\
+    forall q, find (nodes t2) q =
+              if path_eqb p q
+              then Some {| n_data := n_data n1; n_eph := n_eph n1; n_ver := n_ver n1 + 1; n_acl := n_acl n1 |}
+              else find (nodes t1) q.
+Proof.
+  intros W H. pose proof (put_preserves_wf enc t p d acl false dflt eph chk1 W) as W1. rewrite H in W1. cbn [snd] in W1.
+  destruct (put_then_get enc t p d acl dflt eph chk1 _ _ W H ltac:(discriminate)) as [_ [[n1 [F [D [_ Ac]]]] _]].
+  specialize (Ac eq_refl). split.
+  - rewrite (zu_put_existing enc t1 p d acl dflt eph true n1 W1 F). rewrite D. cbn [andb].
+    rewrite (proj2 (zl_eqb_eq _ _) eq_refl). reflexivity.
+  - destruct (set_and_acl_spec t1 p (payload enc d) (realacl dflt acl) n1 F) as [t2 [E1 [E2 E3]]].
+    exists n1, t2. split; [exact F|]. split.
+    + rewrite (zu_put_existing enc t1 p d acl dflt eph false n1 W1 F). exact E1.
+    + split; [exact E2|]. intros q. rewrite E3, D, Ac. reflexivity.
+Qed.
+
+(* ------------------------------------------------------------------ (e) ensure_exists of a missing node *)
+Theorem ensure_exists_missing enc t p acl d r t' : wf (nodes t) -> has (nodes t) p = false ->
+  zu_ensure_exists enc t p acl false d = (r, t') -> (forall e, r <> RExn e) ->
+  r = RPath p /\ created_spec t t' p (payload enc d) false (mk_default (Some (mk_default acl))).
+Proof.
+  intros W Hp H Hne. unfold zu_ensure_exists, c_create in H.
+  destruct (k_create_shape t p (payload enc d) (mk_default (Some (mk_default acl))) false false true)
+    as [[e [t1 K]]|[p1 [t1 K]]]; rewrite K in H.
+  - destruct e; try (inversion H; subst; exfalso; eapply Hne; reflexivity).
+    apply k_create_nodeexists in K. congruence.
+  - inversion H; subst r t'. destruct (k_create_spec _ _ _ _ _ _ _ W K) as [A [_ S]]. subst p1.
+    split; [reflexivity | exact S].
+Qed.
+
+(* ------------------------------------------------------------------ (i) the backend as a map *)
+Definition abs (t : tree) (q : path) : option (list Z) := option_map n_data (find (nodes t) q).
+Definition fill (o : option (list Z)) : option (list Z) := match o with None => Some [] | s => s end.
+(** harness/emaster.py Mem.put / ensure_exists / delete *)
+Definition mem_put (p : path) (v : list Z) (m : path -> option (list Z)) (q : path) : option (list Z) :=
+  if path_eqb p q then Some v else if is_anc q p then fill (m q) else m q.
+Definition mem_ensure (p : path) (m : path -> option (list Z)) (q : path) : option (list Z) :=
+  if path_eqb p q || is_anc q p then fill (m q) else m q.
+Definition mem_delete (p : path) (m : path -> option (list Z)) (q : path) : option (list Z) :=
+  if prefixb p q then None else m q.
+
+Lemma abs_fill_present t q : has (nodes t) q = true -> fill (abs t q) = abs t q.
+Proof. intros H. apply has_true in H as [n Hn]. unfold abs. rewrite Hn. reflexivity. Qed.
+Lemma abs_absent t q : has (nodes t) q = false -> abs t q = None.
+Proof. intros H. apply has_false in H. unfold abs. rewrite H. reflexivity. Qed.
+
+Theorem backend_put_refines enc aclf t p d r t' : wf (nodes t) ->
+  bk_put enc aclf t p d = (r, t') -> (forall e, r <> RExn e) ->
+  r = RPath p /\ wf (nodes t') /\ forall q, abs t' q = mem_put p (payload enc d) (abs t) q.
+Proof.
+  intros W H Hne. unfold bk_put in H.
+  pose proof (put_preserves_wf enc t p d (aclf p) false true false false W) as W'. rewrite H in W'.
+  destruct (put_then_get enc t p d (aclf p) true false false r t' W H Hne) as [R [[n' [F [D _]]] O]].
+  split; [destruct R as [R|[_ [R _]]]; [exact R | discriminate]|]. split; [exact W'|].
+  intros q. unfold mem_put. destruct (path_eqb p q) eqn:E.
+  - apply path_eqb_eq in E. subst q. unfold abs. rewrite F. cbn. congruence.
+  - apply path_eqb_false in E. unfold abs at 1. rewrite (O q) by congruence.
+    destruct (is_anc q p); [|reflexivity]. cbn [andb]. destruct (has (nodes t) q) eqn:Hq; cbn [negb].
+    + rewrite abs_fill_present by exact Hq. reflexivity.
+    + rewrite abs_absent by exact Hq. reflexivity.
+Qed.
+
+Theorem backend_ensure_exists_refines enc aclf t p r t' : wf (nodes t) ->
+  bk_ensure_exists enc aclf t p = (r, t') -> (forall e, r <> RExn e) ->
+  r = RPath p /\ wf (nodes t') /\ forall q, abs t' q = mem_ensure p (abs t) q.
+Proof.
+  intros W H Hne. unfold bk_ensure_exists in H.
+  pose proof (ensure_exists_preserves_wf enc t p (aclf p) false PNone W) as W'. rewrite H in W'.
+  destruct (has (nodes t) p) eqn:Hp.
+  - destruct (proj1 (has_true _ _) Hp) as [n Hn].
+    destruct (ensure_exists_existing enc t p (aclf p) PNone n W Hn) as [t2 [E1 [_ E3]]].
+    rewrite E1 in H. inversion H; subst r t'. split; [reflexivity|]. split; [exact W'|].
+    intros q. unfold mem_ensure, abs at 1. rewrite E3. destruct (path_eqb p q) eqn:E.
+    + apply path_eqb_eq in E. subst q. cbn. rewrite abs_fill_present by exact Hp. unfold abs. rewrite Hn. reflexivity.
+    + cbn [orb is_none]. destruct (is_anc q p) eqn:A; [|reflexivity].
+      rewrite abs_fill_present; [reflexivity|]. exact (wf_anc_present _ _ _ W (W _ Hp) A).
+  - destruct (ensure_exists_missing enc t p (aclf p) PNone r t' W Hp H Hne) as [R S].
+    split; [exact R|]. split; [exact W'|]. intros q. unfold mem_ensure, abs at 1. rewrite S.
+    destruct (path_eqb p q) eqn:E.
+    + apply path_eqb_eq in E. subst q. cbn. rewrite abs_absent by exact Hp. reflexivity.
+    + cbn [orb]. destruct (is_anc q p); [|reflexivity]. cbn [andb]. destruct (has (nodes t) q) eqn:Hq; cbn [negb].
+      * rewrite abs_fill_present by exact Hq. reflexivity.
+      * rewrite abs_absent by exact Hq. reflexivity.
+Qed.
+
+(* ------------------------------------------------------------------ (f) ensure_deleted(recursive=True) *)
+Lemma In_has N q n : In (q, n) N -> has N q = true.
+Proof. intros H. destruct (In_lookup _ _ _ H) as [b Hb]. unfold has, find. rewrite Hb. reflexivity. Qed.
+
+Lemma has_In N q : has N q = true -> q <> [] -> exists n, In (q, n) N.
+Proof.
+  unfold has, find. destruct (lookup q N) eqn:L; intros H Hq.
+  - eexists. apply lookup_In. exact L.
+  - destruct q; [congruence | discriminate].
+Qed.
+
+Lemma In_children N p q : has N q = true -> q <> [] -> removelast q = p -> In (last q []) (children N p).
+Proof.
+  intros H Hq Hr. destruct (has_In _ _ H Hq) as [n Hn]. unfold children.
+  change (last q []) with ((fun e : path * node => last (fst e) []) (q, n)). apply in_map.
+  apply filter_In. split; [exact Hn|]. cbn. unfold is_child. destruct q; [congruence|]. rewrite Hr. apply path_eqb_refl.
+Qed.
+
+Lemma children_nil_intro N p :
+  (forall q, has N q = true -> q <> [] -> removelast q = p -> False) -> children N p = [].
+Proof.
+  intros H. unfold children. destruct (filter (fun e => is_child p (fst e)) N) as [|[q n] l] eqn:F; [reflexivity|].
+  exfalso. assert (I : In (q, n) (filter (fun e => is_child p (fst e)) N)) by (rewrite F; left; reflexivity).
+  apply filter_In in I as [I1 I2]. cbn in I2. unfold is_child in I2. destruct q as [|s q]; [discriminate|].
+  apply path_eqb_eq in I2. exact (H _ (In_has _ _ _ I1) ltac:(discriminate) I2).
+Qed.
+
+Lemma maxlen_In N q n : In (q, n) N -> (length q <= maxlen N)%nat.
+Proof.
+  induction N as [|[k b] N IH]; cbn; [tauto|]. intros [H|H].
+  - inversion H; subst. lia.
+  - specialize (IH H). lia.
+Qed.
+
+Lemma maxlen_bound N q : has N q = true -> (length q <= maxlen N)%nat.
+Proof.
+  intros H. destruct q as [|s q]; [cbn; lia|]. destruct (has_In _ _ H ltac:(discriminate)) as [n Hn].
+  exact (maxlen_In _ _ _ Hn).
+Qed.
+
+Definition removed (t t' : tree) (p : path) : Prop :=
+  forall q, find (nodes t') q = if prefixb p q then None else find (nodes t) q.
+Definition bounded (t : tree) (p : path) (k : nat) : Prop :=
+  forall q, has (nodes t) q = true -> prefixb p q = true -> (length q <= length p + k)%nat.
+
+Lemma wf_remove_subtree N N' p : wf N -> p <> [] ->
+  (forall q, find N' q = if prefixb p q then None else find N q) -> wf N'.
+Proof.
+  intros W Hp F q Hq. unfold has in Hq |- *. rewrite F in Hq |- *. destruct (prefixb p q) eqn:E; [discriminate|].
+  destruct (prefixb p (removelast q)) eqn:E2; [apply prefixb_removelast in E2; congruence|]. exact (W _ Hq).
+Qed.
+
+Lemma removed_absent t p : wf (nodes t) -> find (nodes t) p = None -> removed t t p.
+Proof.
+  intros W H q. destruct (prefixb p q) eqn:P; [|reflexivity]. destruct (prefixb_app _ _ P) as [r Hr]. subst q.
+  destruct (has (nodes t) (p ++ r)) eqn:Hq; [|apply has_false; exact Hq].
+  apply (wf_prefix _ W) in Hq. apply has_false in H. congruence.
+Qed.
+
+Lemma del_quiet_leaf t p n : p <> [] -> find (nodes t) p = Some n -> children (nodes t) p = [] ->
+  exists t', del_quiet t p = (RNone, t') /\
+    forall q, find (nodes t') q = if path_eqb p q then None else find (nodes t) q.
+Proof.
+  intros Hp H Hc. unfold del_quiet, srv_delete. destruct p; [congruence|]. cbv iota. rewrite H, Hc.
+  eexists. split; [reflexivity|]. intros q. cbn [nodes]. apply find_del_where. reflexivity.
+Qed.
+
+Lemma ens_del_unfold k t p : ens_del (S k) t p =
+  match find (nodes t) p with
+  | None => (RNone, t)
+  | Some _ =>
+      match fold_left (fun (acc : res * tree) c =>
+                         match fst acc with RExn _ => acc | _ => ens_del k (snd acc) (p ++ [c]) end)
+                      (children (nodes t) p) (RNone, t) with
+      | (RExn e, t') => (RExn e, t')
+      | (_, t') => del_quiet t' p
+      end
+  end.
+Proof. reflexivity. Qed.
+
+Lemma prefixb_child_false (p : path) c : prefixb (p ++ [c]) p = false.
+Proof.
+  destruct (prefixb (p ++ [c]) p) eqn:E; [|reflexivity]. apply prefixb_length in E. rewrite app_length in E. cbn in E. lia.
+Qed.
+
+Lemma ens_del_fold (F : tree -> path -> res * tree) p k :
+  (forall t1 c, wf (nodes t1) -> bounded t1 (p ++ [c]) k ->
+                exists t2, F t1 (p ++ [c]) = (RNone, t2) /\ removed t1 t2 (p ++ [c])) ->
+  forall cs t1, wf (nodes t1) -> bounded t1 p (S k) ->
+  exists t2, fold_left (fun (acc : res * tree) c =>
+                          match fst acc with RExn _ => acc | _ => F (snd acc) (p ++ [c]) end) cs (RNone, t1)
+             = (RNone, t2) /\ wf (nodes t2) /\
+             forall q, find (nodes t2) q =
+                       if existsb (fun c => prefixb (p ++ [c]) q) cs then None else find (nodes t1) q.
+Proof.
+  intros HF. induction cs as [|c r IH]; intros t1 W B.
+  - exists t1. cbn. auto.
+  - cbn [fold_left fst snd].
+    assert (B1 : bounded t1 (p ++ [c]) k).
+    { intros q Hq Pq. specialize (B q Hq (prefixb_app_l _ _ _ Pq)). rewrite app_length. cbn. lia. }
+    destruct (HF t1 c W B1) as [t2 [E R]]. rewrite E.
+    assert (W2 : wf (nodes t2)).
+    { apply (wf_remove_subtree (nodes t1) _ (p ++ [c])); [exact W | destruct p; discriminate | exact R]. }
+    assert (B2 : bounded t2 p (S k)).
+    { intros q Hq Pq. apply B; [|exact Pq]. unfold has in Hq |- *. rewrite R in Hq.
+      destruct (prefixb (p ++ [c]) q); [discriminate | exact Hq]. }
+    destruct (IH t2 W2 B2) as [t3 [E3 [W3 F3]]]. exists t3. split; [exact E3|]. split; [exact W3|].
+    intros q. rewrite F3, R. cbn [existsb]. destruct (prefixb (p ++ [c]) q); cbn [orb]; [|reflexivity].
+    destruct (existsb (fun c0 => prefixb (p ++ [c0]) q) r); reflexivity.
+Qed.
+
+Lemma ens_del_spec : forall k t p, wf (nodes t) -> p <> [] -> bounded t p k ->
+  exists t', ens_del (S k) t p = (RNone, t') /\ removed t t' p.
+Proof.
+  induction k as [|k IH]; intros t p W Hp B; rewrite ens_del_unfold.
+  - destruct (find (nodes t) p) as [n|] eqn:Fp; [|exists t; split; [reflexivity | exact (removed_absent t p W Fp)]].
+    assert (C : children (nodes t) p = []).
+    { apply children_nil_intro. intros q Hq Hq0 Hr.
+      assert (P : prefixb p q = true) by (apply prefixb_removelast; rewrite Hr; apply prefixb_refl).
+      specialize (B q Hq P). rewrite (length_removelast q Hq0), Hr in B. lia. }
+    rewrite C. cbn [fold_left]. destruct (del_quiet_leaf t p n Hp Fp C) as [t' [E F]]. exists t'. split; [exact E|].
+    intros q. rewrite F. destruct (path_eqb p q) eqn:E1.
+    + apply path_eqb_eq in E1. subst. rewrite prefixb_refl. reflexivity.
+    + destruct (prefixb p q) eqn:P; [|reflexivity].
+      destruct (has (nodes t) q) eqn:Hq; [|apply has_false; exact Hq].
+      exfalso. specialize (B q Hq P). destruct (prefixb_app _ _ P) as [r Hr]. subst q. rewrite app_length in B.
+      destruct r; [rewrite app_nil_r, path_eqb_refl in E1; discriminate | cbn in B; lia].
+  - destruct (find (nodes t) p) as [n|] eqn:Fp; [|exists t; split; [reflexivity | exact (removed_absent t p W Fp)]].
+    destruct (ens_del_fold (ens_del (S k)) p k
+                (fun t1 c W1 B1 => IH t1 (p ++ [c]) W1 ltac:(destruct p; discriminate) B1)
+                (children (nodes t) p) t W B) as [t2 [E2 [W2 F2]]].
+    rewrite E2.
+    assert (X0 : forall l, existsb (fun c => prefixb (p ++ [c]) p) l = false).
+    { induction l as [|c l IHl]; cbn; [reflexivity|]. rewrite prefixb_child_false. exact IHl. }
+    assert (Fp2 : find (nodes t2) p = Some n) by (rewrite F2, X0; exact Fp).
+    assert (C2 : children (nodes t2) p = []).
+    { apply children_nil_intro. intros q Hq Hq0 Hr. unfold has in Hq. rewrite F2 in Hq.
+      destruct (existsb (fun c => prefixb (p ++ [c]) q) (children (nodes t) p)) eqn:X; [discriminate|].
+      assert (I : In (last q []) (children (nodes t) p)) by (apply In_children; auto).
+      assert (Y : existsb (fun c => prefixb (p ++ [c]) q) (children (nodes t) p) = true).
+      { apply existsb_exists. exists (last q []). split; [exact I|]. rewrite <- Hr.
+        rewrite <- (app_removelast_last (A:=seg) [] Hq0). apply prefixb_refl. }
+      congruence. }
+    destruct (del_quiet_leaf t2 p n Hp Fp2 C2) as [t' [E F]]. exists t'. split; [exact E|].
+    intros q. rewrite F, F2. destruct (path_eqb p q) eqn:E1.
+    + apply path_eqb_eq in E1. subst. rewrite prefixb_refl. reflexivity.
+    + destruct (prefixb p q) eqn:P.
+      * destruct (has (nodes t) q) eqn:Hq.
+        -- destruct (prefixb_app _ _ P) as [r Hr]. subst q.
+           destruct r as [|x r]; [rewrite app_nil_r, path_eqb_refl in E1; discriminate|].
+           assert (Hx : has (nodes t) (p ++ [x]) = true).
+           { apply (wf_prefix _ W r). rewrite <- app_assoc. exact Hq. }
+           assert (I : In x (children (nodes t) p)).
+           { pose proof (In_children (nodes t) p (p ++ [x]) Hx ltac:(destruct p; discriminate)
+                           (removelast_last p x)) as I. rewrite last_last in I. exact I. }
+           assert (Y : existsb (fun c => prefixb (p ++ [c]) (p ++ x :: r)) (children (nodes t) p) = true).
+           { apply existsb_exists. exists x. split; [exact I|].
+             change (x :: r) with ([x] ++ r). rewrite app_assoc. apply prefixb_app_refl. }
+           rewrite Y. reflexivity.
+        -- apply has_false in Hq. rewrite Hq. destruct (existsb _ _); reflexivity.
+      * destruct (existsb (fun c => prefixb (p ++ [c]) q) (children (nodes t) p)) eqn:X; [|reflexivity].
+        exfalso. apply existsb_exists in X as [c [_ Pc]]. apply prefixb_app_l in Pc. congruence.
+Qed.
+
+(** recursive ensure_deleted on a ZooKeeper tree: never an exception (in particular the recursion never runs out of
+    fuel: the result is None), no path at or below p is left, every other path is untouched, wf is kept *)
+Theorem ensure_deleted_recursive t p : wf (nodes t) -> p <> [] ->
+  exists t', zu_ensure_deleted t p true = (RNone, t') /\ removed t t' p /\ wf (nodes t').
+Proof.
+  intros W Hp. unfold zu_ensure_deleted.
+  assert (B : bounded t p (maxlen (nodes t))).
+  { intros q Hq _. pose proof (maxlen_bound _ _ Hq). lia. }
+  destruct (ens_del_spec _ t p W Hp B) as [t' [E R]]. exists t'. split; [exact E|]. split; [exact R|].
+  exact (wf_remove_subtree _ _ p W Hp R).
+Qed.
+
+Theorem backend_delete_refines t p : wf (nodes t) -> p <> [] ->
+  exists t', bk_delete t p = (RNone, t') /\ wf (nodes t') /\ forall q, abs t' q = mem_delete p (abs t) q.
+Proof.
+  intros W Hp. destruct (ensure_deleted_recursive t p W Hp) as [t' [E [R W']]]. exists t'.
+  split; [exact E|]. split; [exact W'|]. intros q. unfold abs, mem_delete. rewrite R.
+  destruct (prefixb p q); reflexivity.
+Qed.
+
+(* ------------------------------------------------------------------ which exceptions create can raise *)
+Lemma srv_create_exn_kinds t p v acl eph sequ e t' : srv_create t p v acl eph sequ = (RExn e, t') ->
+  (e = ENoNode /\ has (nodes t) (removelast p) = false) \/ e = ENodeExists \/ e = ENoChildEph.
+Proof.
+  unfold srv_create, has. destruct (find (nodes t) (removelast p)) as [pn|].
+  - destruct (match find (nodes t) _ with Some _ => true | None => false end);
+      [intros H; inversion H; auto|]. destruct (n_eph pn); intros H; inversion H; auto.
+  - intros H. inversion H. auto.
+Qed.
+
+Lemma ens_path_from_outcome acl : forall r acc t, has (nodes t) acc = true ->
+  fst (ens_path (prefixes_from acc r) acl t) = None \/ fst (ens_path (prefixes_from acc r) acl t) = Some ENoChildEph.
+Proof.
+  induction r as [|s r IH]; intros acc t H; cbn [prefixes_from ens_path]; [left; reflexivity|].
+  destruct (has (nodes t) (acc ++ [s])) eqn:Hs; [exact (IH _ _ Hs)|].
+  destruct (srv_create_shape t (acc ++ [s]) [] acl false false) as [[e Ce]|[p' [t1 Ce]]]; rewrite Ce.
+  - destruct (srv_create_exn_kinds _ _ _ _ _ _ _ _ Ce) as [[_ X]|[X|X]]; subst.
+    + rewrite removelast_last in X. congruence.
+    + apply srv_create_nodeexists in Ce. congruence.
+    + right. reflexivity.
+  - destruct (srv_create_ok _ _ _ _ _ _ _ Ce) as [_ [_ [_ F]]]. apply IH. unfold has. rewrite F, path_eqb_refl. reflexivity.
+Qed.
+
+Lemma In_prefixes_from_self : forall r acc, r <> [] -> In (acc ++ r) (prefixes_from acc r).
+Proof.
+  induction r as [|s r IH]; intros acc H; [congruence|]. cbn [prefixes_from]. destruct r as [|s2 r].
+  - left. reflexivity.
+  - right. replace (acc ++ s :: s2 :: r) with ((acc ++ [s]) ++ s2 :: r) by (rewrite <- app_assoc; reflexivity).
+    apply IH. discriminate.
+Qed.
+
+(** create(makepath=True) of a missing node on a wf tree either makes it or raises NoChildrenForEphemeralsError
+    (an ephemeral node on the way); nothing else *)
+Theorem create_missing_outcome t p v acl eph : wf (nodes t) -> has (nodes t) p = false ->
+  (exists t', k_create t p v acl eph false true = (RPath p, t')) \/
+  (exists t', k_create t p v acl eph false true = (RExn ENoChildEph, t')).
+Proof.
+  intros W Hp.
+  destruct (k_create_shape t p v acl eph false true) as [[e [t' K]]|[p' [t' K]]].
+  - right. exists t'. rewrite K. f_equal. f_equal. revert K. unfold k_create.
+    destruct (srv_create_shape t p v acl eph false) as [[e1 Ce]|[p1 [t1 Ce]]]; rewrite Ce; [|discriminate].
+    destruct (srv_create_exn_kinds _ _ _ _ _ _ _ _ Ce) as [[X Hpa]|[X|X]]; subst e1.
+    + pose proof (ens_path_from_outcome acl (removelast p) [] t (has_root _)) as O. fold (prefixes (removelast p)) in O.
+      destruct (ens_path (prefixes (removelast p)) acl t) as [[e2|] t2] eqn:EP; cbn [fst] in O.
+      * destruct O as [O|O]; [discriminate|]. inversion O; subst. intros K. inversion K. reflexivity.
+      * intros K. destruct (srv_create_exn_kinds _ _ _ _ _ _ _ _ K) as [[X Hpa2]|[X|X]]; subst e.
+        -- exfalso. apply has_false in Hpa2. rewrite (ens_path_spec _ _ _ _ EP) in Hpa2.
+           assert (I : existsb (path_eqb (removelast p)) (prefixes (removelast p)) = true).
+           { apply existsb_exists. exists (removelast p). split; [|apply path_eqb_refl].
+             apply (In_prefixes_from_self (removelast p) []). intros Z. rewrite Z in Hpa. rewrite has_root in Hpa.
+             discriminate. }
+           rewrite I, Hpa in Hpa2. discriminate.
+        -- exfalso. apply srv_create_nodeexists in K. unfold has in K. rewrite (ens_path_spec _ _ _ _ EP) in K.
+           fold (is_anc p p) in K. rewrite is_anc_self in K. cbn [andb] in K.
+           change (has (nodes t) p = true) in K. congruence.
+        -- reflexivity.
+    + intros K. inversion K; subst. apply srv_create_nodeexists in Ce. congruence.
+    + intros K. inversion K. reflexivity.
+  - left. exists t'. destruct (k_create_spec _ _ _ _ _ _ _ W K) as [A _]. subst p'. exact K.
+Qed.
